@@ -387,6 +387,13 @@ class Frame(object):
                     self.loop_ord[id(node)] = n
 
 
+def loop_header(node):
+    """the text a loop annotation is bound to"""
+    if isinstance(node, ast.While):
+        return "while " + ast.unparse(node.test)
+    return "for _ in %s" % ast.unparse(node.iter)     # the name of the loop variable is immaterial
+
+
 def _walk_no_nested(fn):
     """Source-order walk of a function body without entering nested defs/lambdas."""
     stack = list(reversed(fn.body)) if hasattr(fn, "body") and isinstance(fn.body, list) else [fn.body]
@@ -792,7 +799,14 @@ class Exec(object):
             c = self.engine.contracts.get(self.top_fq)     # the typing variant under verification
         if c is None:
             return None
-        return (c.get("loops") or {}).get(fr.loop_ord.get(id(node)))
+        spec = (c.get("loops") or {}).get(fr.loop_ord.get(id(node)))
+        if spec is not None:
+            want = self.engine.loop_headers.get(fr.fref.fq, {}).get(str(fr.loop_ord.get(id(node))))
+            have = loop_header(node)
+            if want is not None and want != have:
+                raise Unsupported("loop %s of %s was rewritten ('%s' is now '%s'): its invariant is bound to the old "
+                                  "loop and no longer applies" % (fr.loop_ord.get(id(node)), fr.fref.fq, want, have))
+        return spec
 
     def st_While(self, node):
         spec = self.loop_spec(node)
